@@ -162,7 +162,7 @@ func (w *World) evInvokeBatch() Ev {
 	return EvInvoke("Processer.Invoke", w.IfaceMethod("actor", "Processer", "Invoke"))
 }
 
-func (w *World) findInboxRoles() *inboxRoles {
+func (w *World) findInboxRolesUncached() *inboxRoles {
 	ir := &inboxRoles{inbox: w.Named("actor", "Inbox")}
 	bad := func(f string, a ...any) { ir.problems = append(ir.problems, fmt.Sprintf(f, a...)) }
 	if ir.inbox == nil {
